@@ -183,6 +183,18 @@ CLAIMS: dict[str, dict[str, str]] = {
         "note": NOTE + " The may-raise table for the builtins/stdlib calls involved is frozen in pvs/props/C17.py.",
         "technique": "exception-escape analysis: regex-AST nullability + dominance facts, handler reachability, typestate",
     },
+    "C18": {
+        "text": "Static key-closure checking: key templates of DifferenceFormatter.format are extracted with a symbolic "
+                "string evaluator on every path, those of in_words/Formatter from their f-strings; instantiated over "
+                "7 units x {future,past} x each locale's plural classes (tabulated for counts 0..1000 from the lambda "
+                "AST) and resolved in the 27 locale literals with the optional fall-backs honoured (about 3700 "
+                "obligations); placeholder fields must be fillable by one positional argument; direction markers are "
+                "paired with diff.invert / suppressed by absolute on every path; locale tables for the localized "
+                "tokens; reference shape and arm order of the unit ladder. Translation wording and the numeric "
+                "rounding for every pair of instants are not claimed.",
+        "note": NOTE,
+        "technique": "symbolic key-template extraction + locale-literal closure, placeholder and direction-pairing rules",
+    },
 }
 
 NOT_APPLICABLE: dict[str, str] = {}
